@@ -75,6 +75,10 @@ def simulate(n: int, seed: int, *, maxlen=5, minlen=None, nlabels=3, se=2, wide=
     m = re.search(r"Invariant (\w+) is violated", out)
     if m:
         info["violated"] = m.group(1)
+        from .tlc import parse_error_trace
+
+        tr = parse_error_trace(out)
+        info["state"] = tr[-1] if tr else None
     m = re.search(r"(\d+) states checked", out)
     if m:
         info["states"] = int(m.group(1))
